@@ -314,6 +314,16 @@ Example ex_vec_lookups :
   /\ vr_get_by_request ex_vec (ex_req []) = Ok (Miss 2 [(B "x-a", B "d")]).
 Proof. repeat split; vm_compute; reflexivity. Qed.
 
+(** tuples whose components run together to the same text are different keys: the order compares component by
+    component (a comparison of the concatenated values — seeded change C05-1 — would call them equal) *)
+Example ex_ambiguous_tuples_differ :
+  let t1 := [(B "x-a", B "ab"); (B "x-b", B "c")] in
+  let t2 := [(B "x-a", B "a"); (B "x-b", B "bc")] in
+  let t3 := [(B "x-a", B "abc"); (B "x-b", [])] in
+  concat (map snd t1) = concat (map snd t2) /\ concat (map snd t2) = concat (map snd t3) /\
+  cmp_hcoll t1 t2 = Gt /\ cmp_hcoll t2 t3 = Lt /\ cmp_hcoll t1 t3 = Lt /\ hc_eqb t1 t2 = false.
+Proof. repeat split; vm_compute; reflexivity. Qed.
+
 (** the hypotheses of [vary_refines_map] / [computed_once_per_tuple] are satisfiable *)
 Definition ex_compute (hs : N) (r : request) (ok : bool) : fat * N * list bytes :=
   (mkFat 200 [] (B "page") SP_FULL true, hs + 1, [B "h"]).
